@@ -243,6 +243,11 @@ def check_load(w, cl, rec, op, status, val):
     faulted = bool(cl.fired) or is_corrupt(w, op["name"])
     w.probe("loads")
     form = op.get("form", "plain")
+    if form.startswith("userpath"):
+        # a path to the user's own file: whatever comes back is not a shipped
+        # table; what matters is that the shipped tables stay what they are
+        w.probe("user_file_loads")
+        return
     if form in ("upper", "padded", "suffixed"):
         # not a name the pinned loaders accept: nothing is required - unless a
         # change starts to accept it, then it names that table
